@@ -6,7 +6,9 @@ x every assignment of {header-only, m-row} to the operator's table inputs with a
 x m in {1,2} (quick) / {1,2,3,4} (thorough) x four source container forms x two consecutive passes; plus
 every depth-2 pipeline op2(op1(header-only table)) of unary call forms and every binary call form fed with
 op1(header-only table) on either input.  Oracle: no exception; header as for non-empty input
-(or the documented header when it depends on data); data rows per the zero-row definition.
+(or the documented header when it depends on data); data rows per the zero-row definition.  Every direct
+state is also run with the header-only input given as a zero-row VIEW of the same kind (16 field-agnostic
+views: pass-through views over a header-only table and views that drop every row of a 2-row table).
 
 Rendering accessors (look, lookall, lookstr, lookallstr, Table.look, repr, str, see, Table.see,
 _repr_html_) are enumerated over their whole option space: style in {grid, simple, minimal} given by
@@ -44,15 +46,22 @@ RULE = ('program = catalogue/local call form, or pipeline op2(op1(.)) of two una
         'definition as a multiset (none; the other side\'s rows for outer joins/complements/antijoin/cat/stack/'
         'mergesort; one row for key-less simple aggregates; 0 or 1 rows for key-less multi-aggregates).  A state '
         'is non-trivial when it is a binary operator with exactly one header-only side, or a container form other '
-        'than the plain tuple table, or a pipeline that is applicable (runs on 2-row input).  Rendering states = '
+        'than the plain tuple table, or its header-only input is a zero-row view (cat/head/tail/rowslice/sort/'
+        'distinct/cache over a header-only table; head(0)/tail(0)/rowslice/select(False)/rowlenselect over a 2-row '
+        'table), or a pipeline that is applicable (runs on 2-row input).  Rendering states = '
         '(rendering function, options by argument, petl.config values, header shape, container form | first-stage '
         'view); petl.config is set inside try/finally and restored; a rendering state is applicable when the same '
         'call works on the table with one data row; oracle: no exception, text == reference header lines == '
         'one-row rendering minus the row part')
 ASSUMPTIONS = [
     'header-only = a header row and zero data rows; a table without any row at all is outside the statement',
-    'excluded: fromdicts without header= on empty input (no header can exist); valuecount (0/0); interval* '
-    '(intervaltree not installed); randomtable/dummytable/empty (no table input); addcolumn(long) (c02only)',
+    'excluded: fromdicts without header= on empty input (no header can exist); valuecount (0/0); '
+    'randomtable/dummytable/empty (no table input); addcolumn(long) (c02only)',
+    'petl/transform/intervals.py: every public operator has a call form; each is probed on 2-row inputs and only '
+    'those failing there with ImportError (intervaltree missing: interval joins, intervalsubtract, interval '
+    'lookups) are excluded - collapsedintervals (all forms) needs no package and is enumerated; the excluded '
+    'names are listed in bounds.excluded and join the space as soon as the package is importable (exception-'
+    'freeness and header only, their rows could not be validated without it)',
     'no-raise only (rows not compared): limits/stats/parsecounts/parsecounter (min or mean of nothing is not '
     'defined), fromxml (no header row survives the round trip); skip(1) must give an entirely empty table; merge with one non-empty side: header and row count only',
     'field arguments of every call form name fields that exist in the header',
@@ -77,8 +86,28 @@ class IterTable(object):
         return (r for r in self._rows)
 
 
+# table kinds the shared catalogue does not have (interval operators): header, row(i)
+LOCAL_KINDS = {
+    'iv': (('k', 'start', 'stop', 'v'), lambda i: ('xy'[i % 2], 1 + 2 * i, 4 + 2 * i, 'p%d' % i)),
+    'ivb': (('k', 'start', 'stop', 'w'), lambda i: ('xy'[i % 2], 2 + 3 * i, 5 + 3 * i, 'q%d' % i)),
+    'iv2': (('start', 'stop'), lambda i: (1 + 2 * i, 4 + 2 * i)),
+    'ivr': (('begin', 'end', 'k'), lambda i: (1 + 2 * i, 4 + 2 * i, 'xy'[i % 2])),
+}
+
+
+def kind_header(kind):
+    return LOCAL_KINDS[kind][0] if kind in LOCAL_KINDS else C.HEADERS[kind]
+
+
+def plain_table(kind, n):
+    if kind in LOCAL_KINDS:
+        hdr, row = LOCAL_KINDS[kind]
+        return (hdr,) + tuple(row(i) for i in range(n))
+    return C.table(kind, n)
+
+
 def mk(kind, n, form):
-    t = C.table(kind, n)
+    t = plain_table(kind, n)
     if form == 'tuple':
         return t
     if form == 'list':
@@ -356,19 +385,97 @@ def _local_ops():
 _local_ops()
 
 
+def _interval_ops():
+    """Every public operator of petl/transform/intervals.py.  Tag 'optional': the call form joins the space
+    only if it works on non-empty input in this environment (most of them import the optional package
+    intervaltree lazily; collapsedintervals does not need it) - see optional_status()."""
+    opt = ('optional',)
+    two = ['iv', 'ivb']
+    # collapsedintervals is a generator function: it yields intervals, no header row ('container')
+    L('collapsedintervals', ['iv'], lambda t: etl.collapsedintervals(t), opt + ('container',))
+    L('collapsedintervals(two fields)', ['iv2'], lambda t: etl.collapsedintervals(t), opt + ('container',))
+    L('collapsedintervals(start=,stop=)', ['ivr'],
+      lambda t: etl.collapsedintervals(t, start='begin', stop='end'), opt + ('container',))
+    L('collapsedintervals(positional)', ['ivr'], lambda t: etl.collapsedintervals(t, 'begin', 'end'),
+      opt + ('container',))
+    L('collapsedintervals(key)', ['iv'], lambda t: etl.collapsedintervals(t, key='k'), opt + ('container',))
+    L('collapsedintervals(key,start=,stop=)', ['ivr'],
+      lambda t: etl.collapsedintervals(t, start='begin', stop='end', key='k'), opt + ('container',))
+    L('Table.collapsedintervals', ['iv'], lambda t: etl.wrap(t).collapsedintervals(), opt + ('container',))
+    L('Table.collapsedintervals(key)', ['iv'], lambda t: etl.wrap(t).collapsedintervals(key='k'),
+      opt + ('container',))
+    # operators that need intervaltree: exception-freeness and the usual header only (their zero-row rows
+    # could not be validated here without the package)
+    for nm, fn in [
+        ('intervaljoin', lambda a, b: etl.intervaljoin(a, b)),
+        ('intervaljoin(key)', lambda a, b: etl.intervaljoin(a, b, lkey='k', rkey='k')),
+        ('intervaljoin(include_stop)', lambda a, b: etl.intervaljoin(a, b, include_stop=True)),
+        ('intervalleftjoin', lambda a, b: etl.intervalleftjoin(a, b)),
+        ('intervalleftjoin(key)', lambda a, b: etl.intervalleftjoin(a, b, lkey='k', rkey='k')),
+        ('intervalantijoin', lambda a, b: etl.intervalantijoin(a, b)),
+        ('intervalantijoin(key)', lambda a, b: etl.intervalantijoin(a, b, lkey='k', rkey='k')),
+        ('intervaljoinvalues', lambda a, b: etl.intervaljoinvalues(a, b, value='w')),
+        ('intervalsubtract', lambda a, b: etl.intervalsubtract(a, b)),
+        ('intervalsubtract(key)', lambda a, b: etl.intervalsubtract(a, b, lkey='k', rkey='k')),
+    ]:
+        L(nm, two, fn, opt, zero='skip')
+    for nm, fn in [
+        ('intervallookup', lambda t: etl.intervallookup(t)),
+        ('intervallookup(value)', lambda t: etl.intervallookup(t, value='v')),
+        ('intervallookupone', lambda t: etl.intervallookupone(t, strict=False)),
+        ('intervalrecordlookup', lambda t: etl.intervalrecordlookup(t)),
+        ('intervalrecordlookupone', lambda t: etl.intervalrecordlookupone(t, strict=False)),
+        ('facetintervallookup', lambda t: etl.facetintervallookup(t, 'k')),
+        ('facetintervallookupone', lambda t: etl.facetintervallookupone(t, 'k', strict=False)),
+        ('facetintervalrecordlookup', lambda t: etl.facetintervalrecordlookup(t, 'k')),
+        ('facetintervalrecordlookupone',
+         lambda t: etl.facetintervalrecordlookupone(t, 'k', 'start', 'stop', strict=False)),
+    ]:
+        L(nm, ['iv'], fn, opt + ('eager',), zero='skip')
+
+
+_interval_ops()
+
+_OPTIONAL = {}
+
+
+def optional_status():
+    """name -> None (works here) | reason it is excluded.  Probed on 2-row inputs: a call form tagged
+    'optional' that fails with an ImportError there needs a package that is not installed."""
+    if not _OPTIONAL:
+        for o in LOCAL:
+            if 'optional' not in o.tags:
+                continue
+            try:
+                v = o.build([mk(kd, 2, 'tuple') for kd in o.kinds])
+                if 'eager' not in o.tags:
+                    for _ in v:
+                        pass
+                _OPTIONAL[o.name] = None
+            except ImportError as e:
+                _OPTIONAL[o.name] = 'needs an optional package that is not installed (%s)' % e
+            except Exception:
+                _OPTIONAL[o.name] = None      # kept: a failure on non-empty input is reported by baseline()
+    return _OPTIONAL
+
+
 def by_name(name):
     o = C.BY_NAME.get(name)
     return o if o is not None else LOCAL_BY_NAME[name]
 
 
 def all_ops():
-    return [o for o in C.OPS + LOCAL if 'c02only' not in o.tags and o.kinds and o.name not in EXCLUDED]
+    st = optional_status()
+    return [o for o in C.OPS + LOCAL if 'c02only' not in o.tags and o.kinds and o.name not in EXCLUDED
+            and st.get(o.name) is None]
 
 
 def base(name):
     """Operator name without the call-form decoration (used for the violation group)."""
     if name.startswith('w1:'):
         name = name[3:]
+    if name.startswith('Table.'):
+        name = name[6:]
     return re.split(r'[(]', name)[0]
 
 
@@ -523,14 +630,40 @@ def rows_expectation(op):
     return z
 
 
-def check_state(op, ns, form, m):
-    """-> list of (signature, expected, observed, message); empty when the state is fine."""
+# Zero-row VIEWS of any table kind, built with operators that take no field arguments: pass-through views over
+# a header-only table (src rows 0) and views that drop every row of a non-empty table (src rows 2).
+GENERIC_STAGES = OrderedDict([
+    ('cat', (0, lambda t: etl.cat(t))),
+    ('stack', (0, lambda t: etl.stack(t))),
+    ('head(5)', (0, lambda t: etl.head(t, 5))),
+    ('tail(5)', (0, lambda t: etl.tail(t, 5))),
+    ('rowslice(0,None)', (0, lambda t: etl.rowslice(t, 0, None))),
+    ('sort()', (0, lambda t: etl.sort(t))),
+    ('sort(b1)', (0, lambda t: etl.sort(t, buffersize=1))),
+    ('distinct()', (0, lambda t: etl.distinct(t))),
+    ('skipcomments', (0, lambda t: etl.skipcomments(t, '#'))),
+    ('cache', (0, lambda t: C.etl_cache(t))),
+    ('head(0) of 2 rows', (2, lambda t: etl.head(t, 0))),
+    ('tail(0) of 2 rows', (2, lambda t: etl.tail(t, 0))),
+    ('rowslice(0,0) of 2 rows', (2, lambda t: etl.rowslice(t, 0, 0))),
+    ('rowslice(2,None) of 2 rows', (2, lambda t: etl.rowslice(t, 2, None))),
+    ('select(False) of 2 rows', (2, lambda t: etl.select(t, lambda r: False))),
+    ('rowlenselect(99) of 2 rows', (2, lambda t: etl.rowlenselect(t, 99))),
+])
+
+
+def check_state(op, ns, form, m, via=None):
+    """-> list of (signature, expected, observed, message); empty when the state is fine.
+    via = (stage name, input position): that (header-only) input is the zero-row view GENERIC_STAGES[name]."""
     tables = [mk(kd, n, form) for kd, n in zip(op.kinds, ns)]
-    plain = [C.table(kd, n) for kd, n in zip(op.kinds, ns)]
+    plain = [plain_table(kd, n) for kd, n in zip(op.kinds, ns)]
+    if via is not None:
+        src, stage = GENERIC_STAGES[via[0]]
+        tables[via[1]] = stage(mk(op.kinds[via[1]], src, form))
     r = run_op(op, tables)
     if r[0] == 'exc':
-        return [('raises', 'no exception', r[1:], '%s raised %s during %s on a header-only input: %s'
-                 % (op.name, r[1], r[3], r[2]))]
+        return [('raises', 'no exception', r[1:], '%s raised %s during %s on a header-only input%s: %s'
+                 % (op.name, r[1], r[3], '' if via is None else ' (the view %s)' % via[0], r[2]))]
     bad = []
     if 'eager' in op.tags:
         v = r[1]
@@ -702,9 +835,9 @@ def check_pipe2(o1, o2, pos, ns, form, m=2):
         bad.append(('wrong header', full[1][0], p1[0], 'pipeline %s: header differs from the non-empty run' % name))
     if z == 'none':
         exp = []
-    elif callable(z) and baseline(o1, m)[1][0] == freeze(C.HEADERS[o1.kinds[0]]):
+    elif callable(z) and baseline(o1, m)[1][0] == freeze(kind_header(o1.kinds[0])):
         # the first stage keeps the header, so the catalogue's zero-row definition applies unchanged
-        exp = [freeze(tuple(x)) for x in z([C.table(kd, n) for kd, n in zip(o2.kinds, ns)])]
+        exp = [freeze(tuple(x)) for x in z([plain_table(kd, n) for kd, n in zip(o2.kinds, ns)])]
     else:
         return True, bad
     if collections.Counter(exp) != collections.Counter(p1[1:]):
@@ -1037,8 +1170,11 @@ def bounds(tier, seed):
     return {'call_forms': len(all_ops()), 'catalogue_forms': len([o for o in all_ops() if o.name in C.BY_NAME]),
             'local_forms': len(LOCAL), 'pipeline_first_stages': len(stage1_ops()),
             'pipeline_second_stages': len(unary_ops()), 'rows_on_non_empty_side': list(ms(tier)),
-            'container_forms': list(FORMS), 'passes': 2, 'excluded': EXCLUDED,
+            'container_forms': list(FORMS), 'passes': 2,
+            'excluded': dict(list(EXCLUDED.items()) + [(k, v) for k, v in optional_status().items() if v]),
+            'optional_call_forms_that_work_here': sorted(k for k, v in optional_status().items() if v is None),
             'stages_not_pipelined_because_direct_case_fails': sorted(_DIRECT_BAD),
+            'zero_row_views_used_as_inputs': list(GENERIC_STAGES),
             'rendering_functions': list(VIS_FNS), 'rendering_styles': list(STYLES),
             'rendering_configurations': dict((fn, len(vis_configs(fn))) for fn in VIS_FNS),
             'rendering_headers': dict((k, list(map(str, v))) for k, v in VIS_HEADERS.items()),
@@ -1074,8 +1210,27 @@ def run_item(item, acc):
                         acc.violation('%s | %s' % (base(name), sig),
                                       {'kind': 'op', 'op': name, 'ns': list(ns), 'form': form, 'm': m, 'sig': sig},
                                       exp, obs, msg)
+        # the same states with the header-only input given as a zero-row view
+        if name not in _DIRECT_BAD:
+            for ns in assignments(len(op.kinds), 2):
+                for pos, n in enumerate(ns):
+                    if n != 0:
+                        continue
+                    for gname in GENERIC_STAGES:
+                        for form in (('tuple',) if tier == 'quick' else ('tuple', 'iter')):
+                            acc.states += 1
+                            acc.transitions += 2 if not (op.tags & {'eager'}) else 1
+                            acc.evals += 1
+                            acc.nontrivial += 1
+                            acc.counters['states:direct, input is a zero-row view'] += 1
+                            bad = check_state(op, ns, form, 2, via=(gname, pos))
+                            acc.outcome((name, ns, gname, pos, tuple(b[0] for b in bad)))
+                            for sig, exp, obs, msg in bad:
+                                acc.violation('%s on a zero-row view | %s' % (base(name), sig),
+                                              {'kind': 'op', 'op': name, 'ns': list(ns), 'form': form, 'm': 2,
+                                               'via': [gname, pos], 'sig': sig}, exp, obs, msg)
         acc.sample({'op': name, 'assignments': [list(a) for a in assignments(len(op.kinds), 2)],
-                    'forms': list(FORMS)}, 1)
+                    'forms': list(FORMS), 'zero_row_views': list(GENERIC_STAGES)}, 1)
         return
     forms = ('tuple',) if tier == 'quick' else ('tuple', 'iter')
     if kind == 'pipe2':
@@ -1137,7 +1292,8 @@ def replay(case):
     elif case['kind'] == 'vispipe':
         bad = vis_pipe_state(case['fn'], case['cfg'], by_name(case['op1']), case['form'])[1]
     elif case['kind'] == 'op':
-        bad = check_state(by_name(case['op']), tuple(case['ns']), case['form'], case['m'])
+        via = tuple(case['via']) if case.get('via') else None
+        bad = check_state(by_name(case['op']), tuple(case['ns']), case['form'], case['m'], via=via)
     elif case['kind'] == 'pipe2':
         bad = check_pipe2(by_name(case['op1']), by_name(case['op2']), case['pos'], tuple(case['ns']),
                           case['form'])[1]
